@@ -3,7 +3,7 @@ from decimal import Decimal, getcontext
 from fractions import Fraction
 
 from .. import common, patterning
-from ..objects import warmup
+from ..objects import warmup, make_object
 
 
 def scd_exact(coeffs, N):
@@ -44,8 +44,8 @@ def run(ctx):
     seqs = common.random_sequences(ctx.rng, nseq, maxn, 1) + patterning.special_sequences(ctx.rng, ctx.pick(200, 300))
     trs = []
     for i, s in enumerate(seqs):
-        o = lc.SP(s)
-        hist = warmup(o, ctx.rng) if i % 2 else []
+        o, s, how = make_object(lc, s, ctx.rng)
+        hist = ([{"made": how}] if how != "direct" else []) + (warmup(o, ctx.rng) if i % 2 else [])
         out = common.call(o.get_SCD)
         ctx.evaluations += 1
         if out[0] != "ok" or not common.is_number(out[1]):
